@@ -18,11 +18,13 @@ def ntt_module_obs(ctx, t, sizes=((1, (0, 1)), (2, (0, 1, 2, 3)), (4, (0, 15, 5)
                     d = {"NN": nn, "MM": max(nn // 2, 1), "NEGMASK": m, "RSZ": rsz, "ASZ": asz}
                     if tmpa:
                         d["TMPA"] = None
+                    probe = [str(x) for x in ([0, 1, (1 << 63) - 1, 1 << 54, 3, (1 << 63) - 2, 12345, 1 << 62] * ((asz * nn + 7) // 8))[:asz * nn]]
                     obs.append(AlgOb("ntt120/dft-idft%s/N=%d/signs=%d/res=%d/a=%d" % ("_tmp_a" if tmpa else "", nn, m, rsz, asz), "pipe.c", "h_pipe_ntt",
                                      "vf.alg.q120:check_ntt_module_roundtrip", params={"nn": nn, "rsz": rsz, "asz": asz, "negmask": m, "primes": c10.PRIMES30},
                                      defs=d, libs=ag.LIBS, unwind=200, inc=[t], family="ntt120 dft->idft", timeout=900, dialect="--z3",
                                      desc="every int64 coefficient of the given sign classes: the 128-bit result of vec_znx_idft(vec_znx_dft(a)) is congruent to a modulo the four "
                                           "primes and centered, hence equal to a; extra output limbs are zero"))
+                    obs[-1].probe_inputs = probe  # coefficients at both ends of each sign class (0, 1, 2^63-1 ... and, for the negative class, INT64_MIN + the same)
     return obs
 
 
